@@ -14,6 +14,7 @@ LEVEL_TEXT = ("Deductive for the index arithmetic (shape_to_strides, _shape_to_k
               "shape and linear index; lemma library: ravel o unravel = id by induction), bounded for the MapSpec "
               "methods, parsing/printing and malformed-spec rejection (contracts written from the statement, evaluated "
               "on the real classes over enumerated small specs). 'other' because part is proved, part bounded.")
+LEVEL_TEXT += (' _get_common_dim (the common size of the zipped inputs along an index, ValueError exactly on a mismatch), a callee of shape(), is proved as well - it had been an assumed contract.')
 LEVEL_NOTE = ("Trusted: pyvc's encoding of Python (DESIGN 2.1.7), z3/cvc5, spec-function axioms. Bounded part: <=3 "
               "inputs, <=2 outputs, <=4 index names, rank<=3, sizes 1..4. `re`-based parsing is outside the proof rung. "
               "Stated precondition: index names within one array spec are pairwise distinct.")
